@@ -4,7 +4,7 @@
 cd /verif; fail=0
 while IFS=$'\t' read -r name props; do
   case "$name" in ""|\#*) continue;; esac
-  out=$(tools/refactorcheck.sh mustpass/$name.diff $props 2>&1)
+  out=$(tools/refactorcheck.sh /verif/mustpass/$name.diff $props 2>&1)
   echo "$out"
   echo "$out" | grep -qv ": 0 violation(s)" && fail=1
 done < mustpass/props.tsv
